@@ -83,19 +83,25 @@ Proof. vm_compute. auto. Qed.
 
 (* ---- whole documents (element structure, any depth): Model/Doc.v instantiated with today's tables (Model/DocTables.v) ---- *)
 From MX Require Import Model.SeqIds Model.Doc Model.DocTables.
-(* every document, of any depth, whose every element has a type of the sequence class (or no element content) and whose children at
-   every node form a word of the SCHEMA's content model, is read by the parser, and serialising what was read gives back exactly that
-   document: same elements, same order, same nesting *)
-Theorem C09_document_structure : forall d, schema_valid d -> exists e, parse elem_tpl d = Some e /\ emit e = Some d.
-Proof. intros d V. apply doc_roundtrip. apply (schema_valid_valid (fun r I => forallb_In _ _ _ cm_rows_ok9 I)). exact V. Qed.
+Definition rows_ok9 : forall r, In r cm_rows -> cm_row_ok r = true := fun r I => forallb_In _ _ _ cm_rows_ok9 I.
+(* every document, of any depth, whose every element has a type of the sequence class or of the bag class (or no element content) and whose
+   children at every node form a word of the SCHEMA's content model, is read by the parser, and serialising what was read gives back exactly
+   that document: same elements, same order, same nesting *)
+Theorem C09_document_structure : forall d, schema_valid d -> exists e, doc_parse d = Some e /\ doc_emit e = Some d.
+Proof. exact (tables_doc_roundtrip rows_ok9). Qed.
 Print Assumptions C09_document_structure.
-(* and for ANY document, valid or not, over ANY assignment of templates to tags: if the parser returns and the result serialises, then at every
-   node the emitted children are the children that were read, up to order (each related recursively): nothing is dropped, invented or moved *)
-Theorem C09_document_no_silent_loss : forall tpl d e d', parse tpl d = Some e -> emit e = Some d' -> same_content d d'.
-Proof. exact parse_loses_nothing. Qed.
+(* and for ANY document, valid or not: if the parser returns and the result serialises, then at every node the emitted children are the
+   children that were read, up to order (each related recursively): nothing is dropped, invented or moved to another parent *)
+Theorem C09_document_no_silent_loss : forall d e d', doc_parse d = Some e -> doc_emit e = Some d' -> same_content d d'.
+Proof. exact tables_no_silent_loss. Qed.
 Print Assumptions C09_document_no_silent_loss.
 Example C09_document_example :
   let d := XNode s_defaults [XNode s_scaling [XNode s_millimeters []; XNode s_tenths []];
                              XNode s_page_layout [XNode s_page_height []; XNode s_page_width []; XNode s_page_margins [XNode s_left_margin []; XNode s_right_margin []; XNode s_top_margin []; XNode s_bottom_margin []]]] in
-  schema_validb d = true /\ exists e, parse elem_tpl d = Some e /\ emit e = Some d.
-Proof. split; [vm_compute; reflexivity|]. apply C09_document_structure. apply (schema_validb_sound (fun r I => forallb_In _ _ _ cm_rows_ok9 I)). vm_compute. reflexivity. Qed.
+  schema_validb d = true /\ exists e, doc_parse d = Some e /\ doc_emit e = Some d.
+Proof. split; [vm_compute; reflexivity|]. apply C09_document_structure. apply (schema_validb_sound rows_ok9). vm_compute. reflexivity. Qed.
+(* a bag-class element (articulations: any number of marks in any order) inside a sequence-class one (notations) *)
+Example C09_document_example_bag :
+  let d := XNode s_articulations [XNode s_staccato []; XNode s_accent []; XNode s_staccato []; XNode s_tenuto []] in
+  schema_validb d = true /\ exists e, doc_parse d = Some e /\ doc_emit e = Some d.
+Proof. split; [vm_compute; reflexivity|]. apply C09_document_structure. apply (schema_validb_sound rows_ok9). vm_compute. reflexivity. Qed.
